@@ -63,6 +63,18 @@ def r13_2(ctx):
         if ret in ("None", "Some(false)") and muts:
             bad = "eat() returns %s after %s" % (ret, muts[0])
     ctx.floor("R13.2", "eat-paths", n, 3)
+    # "need more input" is answered only with an empty queue or at the byte where the buffered text ran out - after every earlier
+    # byte matched; never from a length pre-check (a shorter text that already mismatches must answer Some(false))
+    early = None
+    for pc in nfq.feasible(pcs):
+        if str(pc["ret"]) != "None":
+            continue
+        names = nfq.names(pc)
+        empty_queue = any(("front()" in k and "Some/Ok" in k and v is False) for k, v in pc["guards"].items())
+        in_loop = any(a.startswith("loop-begin") and "p1.bytes()" in a for a in names)
+        if not empty_queue and not in_loop:
+            early = "eat() answers None on a path that has not compared any byte (%s)" % [k for k, v in pc["guards"].items()][:2]
+    ctx.ob("R13.2", "eat-need-more-only-where-text-ran-out", early is None, early or "None only for an empty queue or inside the comparison loop when the buffers are exhausted")
     ctx.ob("R13.2", "eat-is-scan-then-commit", bad is None, bad or "every path that answers None / Some(false) leaves the queue untouched; mutation happens only on the matched path")
 
 
